@@ -15,6 +15,12 @@ BUILT = {
    technique="TLA+ spec SimKernel.tla (resource section) + ResMC model-checked with TLC over all put/get/cancel histories within bounds; emitted histories replayed on the real Container/Store/PriorityStore/FilterStore; generated longer histories validated by TLC",
    text="TLC enumerates every history of 2 processes x 3 ops over put, get, cancel, sleep and yield on a container and on stores of capacity 1-2 with unique items and filters and checks LevelBounds, LevelConservation, StoreBound, ItemsOnce, StoreOrder, QueueFifo and NoStranded (whenever the clock is about to advance, also after cancellations); every emitted history is executed on the real classes step by step and the log (items and grant instants received, level, items and queue lengths after every kernel step) compared; generated longer histories are validated by TLC.",
    note=KERN, design="6/C07"),
+ "C08": dict(
+   technique="TLA+ specs Conserve.tla and GenSink.tla model-checked with TLC (safety and liveness) + TLC trace validation of tap traces recorded on every edge of random pipelines built from every real element class, and of the real DistPacketGenerator/PacketSink book-keeping",
+   text="TLC checks Accounted, DropsOnlyByRule, PerFlowFifo, NoInvention, NoDuplication and Drains on chain, fan-in, fan-out and splitter topologies with <=4 packets, and the generator/sink clauses on short draw sequences; the driver builds seeded random DAGs (chains of 1-4, fan-in, fan-out, rejoining splitter branches, same-instant bursts) from all 17 element classes with a recording tap on every edge, runs lattice workloads to exhaustion and the global tap trace (edge crossings with identity and field snapshot, counters read back, loss draws, counters and store contents at quiescence, exceptions) must be a behaviour of the specification.",
+   note="flows are restricted to those the scheduler is configured for and positive SP priorities (the quantifiers of C12/C13); which output a demux picks is C18's business, timing C09-C15's",
+   design="6/C08"),
+
  "C09": dict(
    technique="TLA+ spec Port.tla model-checked with TLC (tail-drop and RED configs) + TLC trace validation of the real Port/REDPort/PortMonitor on TLC-emitted and random lattice workloads",
    text="Exhaustive TLC run of the timed port specification (all arrival patterns within the stated bounds, three limit modes, rate 0, RED with scripted draws) checks the departure law, occupancy bound, counter identity, byte accounting and the RED region rules; every emitted workload (sampled in the quick tier) and seeded random larger ones are executed on the real classes and each recorded trace (arrivals, departures, monitor samples, public counters after every event) must be a behaviour of the same specification.",
@@ -86,6 +92,12 @@ BUILT = {
    text="TLC checks AckIsPrefix/AckMonotone over all arrival sequences of <=5 segments (reordered, duplicated, gaps, first missing) and, for the untimed loop model with <=2 data and <=2 ACK drops, NoCrash, MarkIsTrue, TimersAreOutstanding, <>AllDelivered under weak fairness and NoSpuriousRetx on loss-free timely paths; the real TCPSink is driven with emitted and random arrival sequences, and real TCPPacketGenerator (Reno and CUBIC) -> Wire -> TCPSink -> Wire loops are run under every pattern of <=2+2 drops over the first 8 transmissions, the recorded event order (transmissions, sink arrivals/ACKs, ACK arrivals with last_ack/next_seq, end state) being validated against the loop specification.",
    note="the loop model is untimed; window size, RTO values and which duplicate triggers fast retransmit are left to C17",
    design="6/C16"),
+
+ "C17": dict(
+   technique="TLA+ spec TcpSender.tla model-checked with TLC on exact rationals + TLC trace validation of the real TCPPacketGenerator driven open-loop with scripted ACK histories, every step validated from the logged pre-state",
+   text="TLC checks WindowRespected, CwndAtLeastMSS, SegmentsConsecutive and each Reno/CUBIC rule as its own action property (slow start, congestion avoidance, third duplicate, further duplicates, deflation on leaving recovery, timeout, RTO law) over all histories of <=5-8 ACK/duplicate/timeout events with exact rational arithmetic; the real sender (TCPReno from several initial cwnd/ssthresh, TCPCubic from its defaults) is driven open-loop with emitted and random ACK histories and timer expiries, and after every event the logged cwnd, ssthresh, rto, next_seq, last_ack, duplicate count and RTT estimator are validated step by step from the logged pre-state: exact where the arithmetic is exact, within 2^-10 byte where it is not.",
+   note="when a retransmission timer fires is left to C16/C19; CUBIC numbers follow the code's unit reading (bytes), recorded as an observation; float rounding below the log resolution is not decided",
+   design="6/C17"),
 
  "C20": dict(
    technique="TLA+ spec Realtime.tla model-checked with TLC against an adversarial virtual wall clock + TLC trace validation of the real RealtimeEnvironment under a scripted monotonic/sleep pair; same programs executed on Environment and RealtimeEnvironment and validated against SimKernel",
